@@ -12,7 +12,7 @@ import time
 import traceback
 
 VERIF = "/verif"
-REPO = "/repo"
+REPO = os.environ.get("VERIF_REPO", "/repo")
 FINDINGS_FILE = os.path.join(VERIF, "known_findings.json")
 
 
